@@ -197,7 +197,7 @@ def main() -> int:
             from . import selftest
         except ImportError:
             return rc
-        rc = selftest.run_for_property(a.property)
+        rc = selftest.run_for_property(a.property, a.repo)
     return rc
 
 
